@@ -71,16 +71,19 @@ def mismatched(T):
     return False
 
 
-def shrink(text, cfg, differs):
-    """smallest substring (by deleting characters from either end, then single characters) on which implementation and reference still differ"""
+def shrink(text, cfg, unexplained, rounds=60):
+    """smallest text (deleting characters from either end, then single characters) on which implementation and reference still differ for an
+    unlisted reason; every round asks the implementation about all candidates in one batch"""
     cur = text
-    changed = True
-    while changed and len(cur) > 1:
-        changed = False
-        for cand in [cur[1:], cur[:-1]] + [cur[:i] + cur[i + 1:] for i in range(1, len(cur) - 1)]:
-            if differs(cand):
-                cur, changed = cand, True
-                break
+    for _ in range(rounds):
+        if len(cur) <= 1:
+            break
+        cands = list(dict.fromkeys([cur[1:], cur[:-1]] + [cur[:i] + cur[i + 1:] for i in range(1, len(cur) - 1)]))
+        ans = E.run_impl(["L %d %s" % (cfg, E.enhex(c)) for c in cands], cfg=cfg)
+        nxt = next((c for c, a in zip(cands, ans) if unexplained(c, norm(a))), None)
+        if nxt is None:
+            break
+        cur = nxt
     return cur
 
 
@@ -114,12 +117,9 @@ def run(ctx):
         part, _ = ctx.corr(["L %d %s" % (cfg, E.enhex(s)) for c, s in cases if c == cfg], cfg=cfg, stream="tokens:cfg%d" % cfg, nontrivial=lambda q, a: a.startswith("OK"))
         res += part
 
-    def differs_on(cfg):
-        def f(s):
-            a = norm(E.run_impl(["L %d %s" % (cfg, E.enhex(s))], cfg=cfg)[0])
-            return a != reflex.lex(s, cfg) and classify(s, a, reflex.lex(s, cfg)) is None
-        return f
-    budget = 12
+    def unexplained_on(cfg):
+        return lambda s, a: a != reflex.lex(s, cfg) and classify(s, a, reflex.lex(s, cfg)) is None
+    budget = 6
     for (cfg, s), (_, a, _) in zip(cases, res):
         ref = reflex.lex(s, cfg)
         a = norm(a)
@@ -129,7 +129,7 @@ def run(ctx):
         cls = classify(s, a, ref)
         if cls is None and budget > 0 and len(s) <= 200:
             budget -= 1
-            s2 = shrink(s, cfg, differs_on(cfg))
+            s2 = shrink(s, cfg, unexplained_on(cfg))
             if s2 != s:
                 s, a, ref = s2, norm(E.run_impl(["L %d %s" % (cfg, E.enhex(s2))], cfg=cfg)[0]), reflex.lex(s2, cfg)
         sig = cls or ("accepts-malformed" if a.startswith("OK") and ref == "LEX" else "rejects-well-formed" if ref.startswith("OK") and not a.startswith("OK") else "tokens-differ")
